@@ -12,36 +12,38 @@ META = {
                  "(one-operator expressions over typed leaves x statement contexts, plus exhaustive statement-level families: terminating "
                  "statements and what may follow them, declaration sequences, HISTORIES of one local name - declared, redeclared by := with a "
                  "new companion, assigned, read, in nested scopes and closures - up to length 3 (4), constant indexes and slice bounds of arrays, "
-                 "package-level variables whose initializers refer to later declarations directly / through function literals / through functions), "
+                 "package-level variables whose initializers refer to later declarations directly / through function literals / through functions, "
+                 "every placement of fallthrough in the clauses of 2- and 3-clause switches, type switches, selects, for and function bodies), "
                  "model-checks meta-theorems of the judgment on all of them and exports them with verdicts; every program is built by the "
                  "real scriggo.Build; a TLC Trace spec judges accept/reject/error-class against the judgment; go/types is an oracle guard "
                  "on the violation path only",
     "level": "model_checking",
     "level_text": "Types.tla is a typing judgment (assignability, representability of untyped constants with values, operator/comparison/shift/"
                   "conversion/call/index rules incl. constant index ranges of arrays, := and its redeclaration rule, unused variables/imports "
-                  "(an assignment or a redeclaration is not a use), terminating-statement analysis, break/continue/label placement, "
+                  "(an assignment or a redeclaration is not a use), terminating-statement analysis (a switch clause may end in fallthrough), break/continue/label placement, placement of fallthrough "
+                  "(only the last statement of a non-final clause of an expression switch - not in a nested block/if/for/function literal, type switch, select), "
                   "clause scoping, package-level scope with dependency-ordered typing and initialization cycles). TLC enumerates the whole bounded program space, checks on every program that the judgment satisfies "
-                  "symmetry/duality/coherence/weakening theorems (among them: deleting or appending an assignment never changes whether a history is valid for want of a read) and that the exported verdict is the judgment's, and exports the programs. "
+                  "symmetry/duality/coherence/weakening theorems (among them: deleting or appending an assignment never changes whether a history is valid for want of a read; erasing every fallthrough makes every program of the fallthrough family valid, and a valid one has no more of them than non-final switch clauses) and that the exported verdict is the judgment's, and exports the programs. "
                   "Each is compiled with scriggo.Build and the class of the result (nil / *BuildError / other / panic) is judged by TLC against the judgment.",
     "level_note": "Trusted: TLC, the Json module, the Go driver (prints the AST as Go source, calls Build, logs the result class; no expected values). "
                   "The judgment was validated during development against go/types on the complete deterministic case set (agreement recorded in "
                   "the family report); at run time go/types is consulted only for confirmed violations (oracle guard). Outside the judgment: "
                   "methods, generics, struct types, arrays other than [3]int (only in the array family), function literals other than "
-                  "func(p int) int { return e }(a) and the statement form func() R { ... }(), range clauses, goto, fallthrough, constants beyond a "
+                  "func(p int) int { return e }(a) and the statement form func() R { ... }(), range clauses, goto, labelled fallthrough statements, constants beyond a "
                   "31-bit window (skipped, counted).",
     "design_ref": "7/C03",
 }
 
 FAMS = ["types"]
 MC_INVS = ["ExportFaithful", "SymmetricOps", "ComparisonDuality", "OrderedImpliesEq", "VarAssignCoherence", "ReprMonotone", "Weakening", "TermPlacement",
-           "AssignIrrelevant", "AssignDoesNotRescue"]
+           "AssignIrrelevant", "AssignDoesNotRescue", "FtOnlyCause", "FtBounded"]
 GRAMMAR = ("core: types int int8 uint8 float64 string bool N(int) NS([]int) *int []int map[string]int func(int) int any error chan int "
            "([3]int *[3]int in the array family); "
            "leaves = one variable per type + constants 0 1 300 -1 1.5 \"s\" true nil; expressions = leaf | unary(7 ops) | binary(19 ops) | conversion | "
            "call | index | slice | len cap append make panic delete | type assertion | []int{..} map[string]int{..} | func(p int) int { return e }(a); "
-           "statements = var const type := = op= ++ expression go defer send if for switch type-switch select return break continue (labels) block closure; "
+           "statements = var const type := = op= ++ expression go defer send if for switch type-switch select return break continue (labels) fallthrough block closure; "
            "package level: func var (with initializer) const type import; "
-           "not generated: methods, generics, structs, other array types, range, goto, fallthrough, min/max/clear, packages other than main")
+           "not generated: methods, generics, structs, other array types, range, goto, labelled fallthrough, min/max/clear, packages other than main")
 
 # Defects of scriggo demonstrated by this check on the unchanged tree (reported to the integrator; see the family report).
 PROPOSED_KNOWN = []   # integrated into known-findings.json
@@ -137,7 +139,8 @@ def run(ctx, replay_case=None):
                               f"histories of one local name: {ctx.pick('10 events, length <= 3', '26 events, length <= 3, and 8 events, length 4')}, "
                               f"arrays: {ctx.pick('10 index leaves x 8 forms', '20 index leaves x 13 forms')} + 19 single programs, package initialization: "
                               f"{ctx.pick('10 x 2 initializers, 2 functions h, 2 orders', '18 x 6 initializers, 5 functions h, 2 declared types, 3 orders')}, "
-                              f"select clause pairs, call argument lists of length <= {ctx.pick(2, 3)}; "
+                              f"select clause pairs, call argument lists of length <= {ctx.pick(2, 3)}, fallthrough: {ctx.pick('15 statement lists in every clause of 5 two-clause and (6 lists) 3 three-clause switch shapes', '26 statement lists in every clause of 5 two-clause and (7 lists) 5 three-clause switch shapes')}, "
+                              f"of a type switch and a select, as for / function body, with and without a function result; "
                               f"{shards} shards", grammar=GRAMMAR)
     n = len(obs_all)
     nontriv = {json.dumps(o["prog"], sort_keys=True) for o in obs_all if o["builds"] != "ok"}
